@@ -108,6 +108,8 @@ def check_artefact(ctx, a, stats):
         for loc in ("centre", "xlow", "ylow"):
             if loc not in A["curl_bOverB_x"]:
                 continue
+            if opts.get("cap_Bp_ylow_xpoint") and loc == "ylow":
+                continue  # Bp is deliberately replaced at y-faces next to an X-point
             R, Z = A["Rxy"][loc], A["Zxy"][loc]
             dxR, dxZ, dyR, dyZ, valid = chords(reg, loc, neigh)
             sR0, sZ0 = xchord_start(reg, loc, neigh)
